@@ -138,7 +138,7 @@ def run_case(case):
     calls = []
     for p, s, m in refs.target_methods(req):
         bindings = refs.http_bindings(m)
-        base = {"service": s.name, "rpc": m.name, "method": rdm.snake(m.name), "req_type": m.input_type.lstrip("."),
+        base = {"service": s.name, "rpc": m.name, "method": rdm.py_method(m.name), "req_type": m.input_type.lstrip("."),
                 "resp_type": m.output_type.lstrip("."), "void": m.output_type == ".google.protobuf.Empty"}
         if not bindings or m.client_streaming:
             x = model.new(m.input_type)
@@ -338,7 +338,10 @@ def judge(model, m, call, r, numeric, bump):
             if not numeric and x.lstrip("-").isdigit():
                 bad("enum-encoding", f"query {k}={x}: number although numeric enums not requested")
     # required scalars not bound to path/body must be present even when default
-    bound_top = {var.split(".")[0] for var in pv} | ({body} if body and body != "*" else set())
+    # a field that is a path variable of *some* binding of the method is not judged here: the statement does not
+    # say which binding "not bound to path" refers to (the emitted table is built from the primary binding)
+    any_path_top = {var.split(".")[0] for _vb, t, _b in bindings for var, _ in refs.path_vars(t)}
+    bound_top = {var.split(".")[0] for var in pv} | ({body} if body and body != "*" else set()) | any_path_top
     if body != "*":
         for fd in refs.required_fields(bm.DESCRIPTOR):
             if fd.name in bound_top or fd.type in (FD.TYPE_MESSAGE, FD.TYPE_ENUM) or fd.label == FD.LABEL_REPEATED:
